@@ -1,6 +1,8 @@
 (* Traits.v — src/lib.rs, trait impls: Default, From<[T; M]>, FromIterator,
-   Extend, Index(Mut), PartialEq (all forms), PartialOrd, Ord, Hash, Clone,
-   Debug, and to_vec. No proofs in this file. *)
+   Extend, IntoIterator for &CircularBuffer, Index(Mut), PartialEq (all forms),
+   PartialOrd, Ord, Hash, Clone, Debug, and to_vec; and the Debug impls of
+   Iter, IterMut, IntoIter (src/iter.rs) and Drain (src/drain.rs), which are
+   loops over an Iter like Debug for the buffer. No proofs in this file. *)
 
 From CB Require Export Drain.
 
@@ -28,6 +30,10 @@ Definition to_vec : M (list elem) :=
   v <- to_vec_loop (S (Z.to_nat (size src))) src it [];;
   dassert (zlen v =? size src);;
   ret v.
+
+(* ---- Default (lib.rs:2050): Self::new() ------------------------------- *)
+
+Definition default_buf (n : Z) (junk : store) : cbuf := new_buf n junk.
 
 (* ---- From<[T; M]> (lib.rs:2042) ------------------------------------- *)
 
@@ -224,6 +230,42 @@ Definition buf_fmt : M unit :=
   a <- get;;
   it <- iter_new;;
   iter_for_each (S (Z.to_nat (size a))) a it (fun e => emit (EvFmt e);; user_call FFmt).
+
+(* ---- IntoIterator for &CircularBuffer (lib.rs:2164): Iter::new(self) ---- *)
+
+(* (the crate has no `impl IntoIterator for &mut CircularBuffer`: the only
+   two impls are the by-value one, modelled by the into_iter_* functions of
+   Iter.v, and this one) *)
+Definition ref_into_iter : M iter := iter_new.
+
+(* ---- Debug for Iter (iter.rs:346):
+        f.debug_list().entries(self.clone()).finish() --------------------- *)
+
+Definition iter_fmt (it : iter) : M unit :=
+  src <- get;;
+  let c := iter_clone it in
+  iter_for_each (S (Z.to_nat (slen (it_right c) + slen (it_left c)))) src c
+                (fun e => emit (EvFmt e);; user_call FFmt).
+
+(* ---- Debug for IterMut (iter.rs:471):
+        let it = Iter { right: self.right, left: self.left }; it.fmt(f) ---- *)
+
+Definition iter_mut_fmt (it : iter) : M unit :=
+  let it' := mkI (it_right it) (it_left it) in
+  iter_fmt it'.
+
+(* ---- Debug for Drain (drain.rs:318):
+        let (right, left) = self.as_slices(); Iter { right, left }.fmt(f) --- *)
+
+Definition drain_fmt (d : drain) : M unit :=
+  '(rgt, lft) <- drain_as_slices d;;
+  let it := mkI rgt lft in
+  iter_fmt it.
+
+(* ---- Debug for IntoIter (iter.rs:56): self.inner.fmt(f), on the wrapped
+        buffer -------------------------------------------------------------- *)
+
+Definition into_iter_fmt : M unit := buf_fmt.
 
 (* ---- Clone (lib.rs:2290) ----------------------------------------------- *)
 
